@@ -50,6 +50,19 @@ pub fn enforce_constraints<E: FieldElement>(
     result: &mut [E],
     memory_flag: E,
 ) {
+    enforce_constraints_with_last_row(frame, result, memory_flag, memory_flag);
+}
+
+/// Enforces constraints for the memory chiplet. `memory_flag` excludes the last row of the memory
+/// trace and gates the constraints which relate a row to the next one; `memory_flag_all` includes
+/// the last row and gates the constraint which involves the current row only (a read of new memory
+/// returns zeros), so that it also holds in the last row of the memory trace.
+pub fn enforce_constraints_with_last_row<E: FieldElement>(
+    frame: &EvaluationFrame<E>,
+    result: &mut [E],
+    memory_flag: E,
+    memory_flag_all: E,
+) {
     // Constrain the operation selectors.
     let mut index = enforce_selectors(frame, result, memory_flag);
 
@@ -60,7 +73,7 @@ pub fn enforce_constraints<E: FieldElement>(
     index += enforce_delta(frame, &mut result[index..], memory_flag);
 
     // Constrain the memory values.
-    enforce_values(frame, &mut result[index..], memory_flag);
+    enforce_values(frame, &mut result[index..], memory_flag, memory_flag_all);
 }
 
 // TRANSITION CONSTRAINT HELPERS
@@ -145,12 +158,14 @@ fn enforce_values<E: FieldElement>(
     frame: &EvaluationFrame<E>,
     result: &mut [E],
     memory_flag: E,
+    memory_flag_all: E,
 ) -> usize {
     let mut index = 0;
 
-    // initialize memory to zero when reading from new context and address pair.
+    // initialize memory to zero when reading from new context and address pair; this concerns the
+    // current row only and is also enforced in the last row of the memory trace.
     for i in 0..NUM_ELEMENTS {
-        result[index] = memory_flag * frame.init_read_flag() * frame.v(i);
+        result[index] = memory_flag_all * frame.init_read_flag() * frame.v(i);
         index += 1;
     }
 
